@@ -7,7 +7,7 @@ from ..driver import drive, result_of
 from ..vroommon import VroomMon
 
 PROP = "C13"
-FAMS = ["neg", "const", "zero", "tied", "noisy", "unit", "large", "drift", "cl_hump", "cl_garland", "cl_step"]
+FAMS = ["neg", "const", "zero", "tied", "noisy", "unit", "large", "drift", "cl_hump", "cl_garland", "cl_step", "cl_corner", "cl_corner", "cl_corner"]
 RULE = ("VROOM on the binary-child partitions (Bin, RBin, K2, RK2), d=1..3, n in {100..257} (thorough ..1000), depth "
         "cap below / at / above the ranking depth floor(log2 n) and above n, b and f_max log-uniform, injected "
         "end-point outcomes of np.random.uniform; per pull: exactly one categorical draw whose support, probability "
@@ -63,6 +63,14 @@ def gen_cases(rng, tier, count=None):
         sd = math.floor(math.log2(n))
         c["params"]["h_max"] = int(rng.choice([1, 3, sd - 1, sd, sd + 1, 12, 25, n + 5 if n <= 128 else 40]))
         out.append(gen.add_midqueries(rng, c, 0.3))
+    for i in range(60 if tier == "quick" else 600):
+        # a steep objective whose optimum is the upper corner: the last cell of the deepest ranked layer (the last
+        # entry of the probability vector) becomes the best-ranked one and carries a few per cent of the mass - the
+        # bucket 'pos_last_of_the_support' of the pooled frequency monitor gets enough draws to be judged
+        c = gen.algo_case(rng, "VROOM", tier, fams=["cl_topcorner"], early_stop=False, inject_p=0.0,
+                          n_choices=[100, 128, 150], part=str(rng.choice(["Bin", "K2"])), dim=1)
+        c["params"]["h_max"] = int(rng.choice([6, 7, 12]))
+        out.append(c)
     return out
 
 
